@@ -138,11 +138,6 @@ theorem plain_iff (s : Str) :
       | none => exact ((lastDot_eq_none_iff cs).mp hl) hd
       | some i =>
         have hl' : lastDot (c :: cs) = some (i + 1) := by simp [lastDot, hl]
-        have hne : ¬ (c :: cs = [] ∨ c :: cs = ['.', '.']) := by
-          intro hh
-          rw [← splitExt_eq_none_iff] at hh
-          rw [hh] at h
-          cases h
         simp [splitExt, hl'] at h
     · have hl : lastDot cs = none := (lastDot_eq_none_iff cs).mpr hd
       by_cases hdd : c :: cs = ['.', '.']
@@ -664,5 +659,187 @@ theorem withPart_append (dir name : Str) (n : Nat) (hd : DirPrefix dir) (hn : '/
 theorem removePart_append (dir name : Str) (hd : DirPrefix dir) (hn : '/' ∉ name) :
     removePart (dir ++ name) = (removeExt name).map (dir ++ ·) := by
   simp only [removePart, splitPath_append dir name hd hn]
+
+-- ---------------------------------------------------------------- which names are `Good`
+
+/-- the name has an extension that is `pna` up to ASCII case -/
+def PnaExt (name : Str) : Prop :=
+  match splitExt name with
+  | some (_, some e) => e.map lower = ['p', 'n', 'a']
+  | _ => False
+
+instance : DecidablePred PnaExt := fun name => by
+  unfold PnaExt
+  split <;> infer_instance
+
+theorem good_of_pnaExt {name : Str} (h : PnaExt name) : Good name := by
+  unfold PnaExt at h
+  unfold Good
+  split at h
+  · rename_i e hs
+    simp only [h, if_true]
+  · exact h.elim
+
+theorem good_of_count_le_two (name : Str) (h : name.count '.' ≤ 2) : Good name := by
+  unfold Good
+  split
+  · rename_i stem e hs
+    split
+    · trivial
+    · obtain ⟨hname, hstem, _⟩ := splitExt_some_ext hs
+      have hcnt : stem.count '.' ≤ 1 := by
+        rw [hname] at h
+        simp only [List.count_append, List.count_cons, beq_self_eq_true, if_true] at h
+        omega
+      split
+      · rename_i hs2
+        rcases (splitExt_eq_none_iff stem).mp hs2 with h0 | h0
+        · exact hstem h0
+        · rw [h0] at hcnt
+          simp at hcnt
+      · trivial
+      · rename_i s2 e2 hs2
+        obtain ⟨h2name, h2ne, _⟩ := splitExt_some_ext hs2
+        have hd : '.' ∉ s2 := by
+          rw [h2name] at hcnt
+          simp only [List.count_append, List.count_cons, beq_self_eq_true, if_true] at hcnt
+          exact List.count_eq_zero.mp (by omega)
+        exact ⟨fun h0 => hd (by simp [h0]), plain_of_dotless s2 h2ne hd⟩
+  · trivial
+
+theorem count_dot_of_plain {s : Str} (h : splitExt s = some (s, none))
+    (hh : s.head? ≠ some '.') : s.count '.' = 0 := by
+  obtain ⟨_, _, ht⟩ := (plain_iff s).mp h
+  cases s with
+  | nil => rfl
+  | cons c cs =>
+    have hc : c ≠ '.' := by simpa using hh
+    apply List.count_eq_zero.mpr
+    simp only [List.tail_cons] at ht
+    simp [ht, Ne.symm hc]
+
+theorem head?_append_of_ne_nil {a b : Str} (ha : a ≠ []) : (a ++ b).head? = a.head? := by
+  cases a with
+  | nil => exact absurd rfl ha
+  | cons _ _ => rfl
+
+/-- names that do not begin with a dot: `Good` exactly when the extension is `pna` or there are
+    at most two dots -/
+theorem good_iff_of_no_leading_dot (name : Str) (hh : name.head? ≠ some '.') :
+    Good name ↔ PnaExt name ∨ name.count '.' ≤ 2 := by
+  constructor
+  · intro hg
+    unfold Good at hg
+    unfold PnaExt
+    cases hs : splitExt name with
+    | none =>
+      right
+      rcases (splitExt_eq_none_iff name).mp hs with h0 | h0
+      · simp [h0]
+      · simp [h0]
+    | some p =>
+      obtain ⟨stem, x⟩ := p
+      cases x with
+      | none =>
+        right
+        have := splitExt_some_none hs
+        subst this
+        rw [count_dot_of_plain hs hh]
+        omega
+      | some e =>
+        simp only [hs] at hg ⊢
+        by_cases he : e.map lower = ['p', 'n', 'a']
+        · exact Or.inl he
+        · right
+          simp only [if_neg he] at hg
+          obtain ⟨hname, hstem, hde⟩ := splitExt_some_ext hs
+          have hhs : stem.head? ≠ some '.' := by
+            rw [hname, head?_append_of_ne_nil hstem] at hh
+            exact hh
+          have hce : e.count '.' = 0 := List.count_eq_zero.mpr hde
+          rw [hname]
+          simp only [List.count_append, List.count_cons, beq_self_eq_true, if_true, hce]
+          cases hs2 : splitExt stem with
+          | none => simp [hs2] at hg
+          | some q =>
+            obtain ⟨s2, y⟩ := q
+            cases y with
+            | none =>
+              have := splitExt_some_none hs2
+              subst this
+              rw [count_dot_of_plain hs2 hhs]
+              omega
+            | some e2 =>
+              simp only [hs2] at hg
+              obtain ⟨h2name, h2ne, h2d⟩ := splitExt_some_ext hs2
+              have hh2 : s2.head? ≠ some '.' := by
+                rw [h2name, head?_append_of_ne_nil h2ne] at hhs
+                exact hhs
+              have hce2 : e2.count '.' = 0 := List.count_eq_zero.mpr h2d
+              rw [h2name]
+              simp only [List.count_append, List.count_cons, beq_self_eq_true, if_true, hce2,
+                count_dot_of_plain hg.2 hh2]
+              omega
+  · rintro (h | h)
+    · exact good_of_pnaExt h
+    · exact good_of_count_le_two name h
+
+/-- hidden files: one leading dot, then a name that does not begin with a dot and has at most
+    two dots -/
+theorem good_of_hidden (rest : Str) (hh : rest.head? ≠ some '.') (hc : rest.count '.' ≤ 2) :
+    Good ('.' :: rest) := by
+  unfold Good
+  split
+  · rename_i stem e hs
+    split
+    · trivial
+    · obtain ⟨hname, hstem, _⟩ := splitExt_some_ext hs
+      cases stem with
+      | nil => exact absurd rfl hstem
+      | cons c st =>
+        simp only [List.cons_append, List.cons.injEq] at hname
+        obtain ⟨hc0, hrest⟩ := hname
+        subst hc0
+        have hcnt : st.count '.' ≤ 1 := by
+          rw [hrest] at hc
+          simp only [List.count_append, List.count_cons, beq_self_eq_true, if_true] at hc
+          omega
+        have hst : st.head? ≠ some '.' := by
+          intro h0
+          apply hh
+          rw [hrest]
+          cases st with
+          | nil => cases h0
+          | cons _ _ => exact h0
+        split
+        · rename_i hs2
+          rcases (splitExt_eq_none_iff _).mp hs2 with h0 | h0
+          · cases h0
+          · simp only [List.cons.injEq, true_and] at h0
+            rw [h0] at hst
+            exact hst rfl
+        · trivial
+        · rename_i s2 e2 hs2
+          obtain ⟨h2name, h2ne, _⟩ := splitExt_some_ext hs2
+          cases s2 with
+          | nil => exact absurd rfl h2ne
+          | cons c2 s2' =>
+            simp only [List.cons_append, List.cons.injEq] at h2name
+            obtain ⟨hc2, hst2⟩ := h2name
+            subst hc2
+            have hd : '.' ∉ s2' := by
+              rw [hst2] at hcnt
+              simp only [List.count_append, List.count_cons, beq_self_eq_true, if_true] at hcnt
+              exact List.count_eq_zero.mp (by omega)
+            have hne : s2' ≠ [] := by
+              intro h0
+              subst h0
+              rw [hst2] at hst
+              exact hst rfl
+            refine ⟨by simpa using hne, (plain_iff _).mpr ⟨by simp, ?_, by simpa using hd⟩⟩
+            intro h0
+            simp only [List.cons.injEq, true_and] at h0
+            exact hd (by simp [h0])
+  · trivial
 
 end Pna.Cli.PartName
